@@ -221,6 +221,43 @@ def reentrant_cases(rng, n):
     return out
 
 
+def shadow_cases(rng, n):
+    """(macro source, hand-inlined source): parameters named like global outputs / hooks / finish codes, called with those names in
+    another order, directly and through a forwarding macro whose own parameters carry the callee's names in yet another order.
+    Arguments are resolved in the caller's scope: a callee's own (earlier) parameters must never capture them."""
+    OUTS, HOOKS, CODES = ["first", "second", "third"], ["ha", "hb", "hc"], ["FA", "FB", "FC"]
+    TWO = ["first", "second", "ha", "hb", "FA", "FB"]            # parameter names of `two` = names of globals
+
+    def two_body(a, b, h1, h2, c1, c2):
+        return [" /\\d/;", " %s = [%s * 10 + ($last - 48)];" % (a, a), " %s();" % h1, ' ",";', " /\\d/;", " %s = [%s * 10 + ($last - 48)];" % (b, b), " %s();" % h2,
+                " case {", '  "!" -> {', "   finish %s;" % c1, "  }", '  "?" -> {', "   finish %s;" % c2, "  }", '  ";" -> {', "  }", " }"]
+    out = []
+    for _ in range(n):
+        decl = "".join("out int %s = 0;\n" % o for o in OUTS) + "".join("hook %s;\n" % h for h in HOOKS) + "finishcode %s;\n" % ", ".join(CODES)
+        macros = "macro two(out first, out second, hook ha, hook hb, finishcode FA, finishcode FB) {\n" + "\n".join(two_body(*TWO)) + "\n}\n"
+        # forwarding macro: its parameters are named like two's, in a shuffled order within each kind
+        fo, fh = rng.sample(["first", "second"], 2), rng.sample(["ha", "hb"], 2)
+        fwd_params = fo + fh
+        inner_args = rng.sample(fo, 2) + rng.sample(fh, 2) + rng.sample(CODES, 2)
+        macros += "macro fwd(out %s, out %s, hook %s, hook %s) {\n two(%s);\n}\n" % (fo[0], fo[1], fh[0], fh[1], ", ".join(inner_args))
+        body_m, body_i = [], []
+        for _c in range(rng.choice([2, 3])):
+            if rng.random() < 0.5:
+                args = rng.sample(OUTS, 2) + rng.sample(HOOKS, 2) + rng.sample(CODES, 2)
+                body_m.append(" two(%s);" % ", ".join(args))
+                body_i += two_body(*args)
+            else:
+                args = rng.sample(OUTS, 2) + rng.sample(HOOKS, 2)
+                env = dict(zip(fwd_params, args))
+                body_m.append(" fwd(%s);" % ", ".join(args))
+                body_i += two_body(*[env.get(x, x) for x in inner_args])
+        msrc = decl + macros + "parser {\n" + "\n".join(body_m) + "\n}\n"
+        isrc = decl + "parser {\n" + "\n".join(body_i) + "\n}\n"
+        seeds = [b"1,2;3,4;5,6;", b"1,2;3,4!", b"7,8?", b"1,2;3,4;5,6?", b"9,9;9,9;9,9!"]
+        out.append((msrc, isrc, seeds))
+    return out
+
+
 def bad_call_variants(rng, mast):
     """mutate one call: wrong count or wrong kind; expected: diagnosed error"""
     out = []
@@ -299,6 +336,16 @@ def run(ctx: Ctx):
         if ri_.ok:
             ctx.cov["reentrant_macro_cases"] += 1
             cases.append(diff.Case("reentrant", [("inlined", isrc, ["-O2"]), ("macros", msrc, ["-O2"])], seeds=seeds))
+    ctx.cov["shadowing_macro_cases"] = 0
+    for msrc, isrc, seeds in shadow_cases(rng, 10 if quick else 100):
+        ri_, rm = nm.compile_source(isrc, [], name="i0", keep=False), nm.compile_source(msrc, [], name="m0", keep=False)
+        ctx.evaluations += 1
+        if ri_.ok != rm.ok:
+            ctx.violation("c13:verdict-differs:shadowing", "inlined %s (%s), macro version %s (%s)" % (ri_.status, ri_.exc_msg, rm.status, rm.exc_msg), {"inlined_source": isrc, "macro_source": msrc, "nmfu_args": []})
+            continue
+        if ri_.ok:
+            ctx.cov["shadowing_macro_cases"] += 1
+            cases.append(diff.Case("shadowing", [("inlined", isrc, ["-O2"]), ("macros", msrc, ["-O2"])], seeds=seeds))
     # rejected programs: the macro version must be rejected too
     rej = []
     work.generated_pool(rng, 8 if quick else 60, profile={"strict_after_open": 0.7}, on_reject=lambda a, s, ar, r: rej.append((a, s, ar, r)) if r.status == "rejected" else None)
@@ -320,6 +367,7 @@ def run(ctx: Ctx):
     ctx.floor("pairs_compared", 1500 if quick else 30000)
     ctx.floor("bad_calls_diagnosed", 40)
     ctx.floor("reentrant_macro_cases", 5)
+    ctx.floor("shadowing_macro_cases", 5)
     # (loop / finishcode / yieldcode parameters depend on what the generated programs happen to contain: reported, not required)
     need = ("out", "hook", "match", "expr") if quick else ("out", "hook", "match", "expr", "macro")
     ctx.inconclusive_if(any(not kinds.get(k) for k in need), "some argument kinds never generated: %s" % kinds)
